@@ -1,6 +1,7 @@
 import Proofs.Lemmas.ForkChoiceSim
 import Proofs.Lemmas.ForkChoiceLock
 import Zrnt.ForkChoice.Spec
+import Zrnt.ForkChoice.Old
 /-!
 # C10 — justification/finalization updates terminate, prune exactly, and keep the head
 
@@ -30,8 +31,9 @@ def aa (k : Nat) : Root := 0xaa * 256 ^ 31 + k
 once and its helpers use the graph directly) nor loops nor panics — on every instance whose node array is well
 formed, i.e. as long as nothing has been pruned. -/
 theorem updateJustified_returns_partial (fc : FC) (hh : fc.held = false) (h : WF fc.pa) (t : Root) (j f : Checkpoint)
-    (b : Option (List Nat)) : fc.updateJustified t j f b ≠ .blocked ∧ fc.updateJustified t j f b ≠ .panic :=
-  updateJustified_returns_wf fc hh h t j f b
+    (b : Option (List Nat)) (hq : f = fc.finalized) :
+    fc.updateJustified t j f b ≠ .blocked ∧ fc.updateJustified t j f b ≠ .panic :=
+  updateJustified_returns_wf fc hh h t j f b hq
 
 /-- non-vacuity: a fresh instance satisfies the hypotheses -/
 example : ∃ fc : FC, fc.held = false ∧ WF fc.pa :=
@@ -49,7 +51,7 @@ def witBlocked : List Op := [
   .justify (rt 0x7f) ⟨1, rt 1⟩ ⟨1, rt 1⟩ (some [32, 32, 32, 32, 1, 1]),
   .justify (rt 0xde) ⟨2, aa 1⟩ ⟨1, rt 1⟩ none]
 
-theorem updateJustified_returns_false : ¬ ∀ ops, ∀ a ∈ (run .none ops).2, a ≠ Ans.blocked := by
+theorem Old.updateJustified_returns_false : ¬ ∀ ops, ∀ a ∈ (Zrnt.ForkChoice.Old.run .none ops).2, a ≠ Ans.blocked := by
   intro h
   exact h witBlocked Ans.blocked (by decide +kernel) rfl
 
@@ -100,7 +102,7 @@ def witPrune : List Op := [
 /-- `OnPrune` reports the FIRST node once per prunable node (`j` never advances) instead of each dropped node
 once, and the live node set afterwards is not the finalized subtree: the model of the code answers differently
 from the exact-prune specification on `witPrune` (replayed on Go: six times `01@0`). -/
-theorem prune_exact_false : (run .none witPrune).2 ≠ (Spec.run none witPrune).2 := by decide +kernel
+theorem Old.prune_exact_false : (Zrnt.ForkChoice.Old.run .none witPrune).2 ≠ (Spec.run none witPrune).2 := by decide +kernel
 
 /-- the same history with no sink: nothing at all is pruned -/
 def witPruneNil : List Op := [
@@ -109,7 +111,8 @@ def witPruneNil : List Op := [
   .justify (rt 0xfe) ⟨1, 0x0201 * 256 ^ 30⟩ ⟨1, 0x0201 * 256 ^ 30⟩ (some [32, 32, 33]),
   .nodes]
 
-theorem prune_without_sink_false : (run .none witPruneNil).2.getLast? ≠ (Spec.run none witPruneNil).2.getLast? := by
+theorem Old.prune_without_sink_false :
+    (Zrnt.ForkChoice.Old.run .none witPruneNil).2.getLast? ≠ (Spec.run none witPruneNil).2.getLast? := by
   decide +kernel
 
 /-- after a partial prune (sink failing at its second call) the next `UpdateJustified` panics
@@ -120,23 +123,14 @@ def witPanic : List Op := [
   .justify (rt 5) ⟨1, rt 2⟩ ⟨1, rt 2⟩ (some [32]),
   .justify (rt 5) ⟨2, rt 3⟩ ⟨2, rt 3⟩ (some [32])]
 
-theorem post_prune_ops_total_false : ¬ ∀ ops, ∀ a ∈ (run .none ops).2, a ≠ Ans.panic := by
+theorem Old.post_prune_ops_total_false : ¬ ∀ ops, ∀ a ∈ (Zrnt.ForkChoice.Old.run .none ops).2, a ≠ Ans.panic := by
   intro h
   exact h witPanic Ans.panic (by decide +kernel) rfl
 
-/-- `post_prune_ops_total`, the part that holds: as long as nothing has been pruned (offset 0 after every prefix
-of the history) no operation of ANY history panics, blocks or loops (the harness machine is never `dead`), and the
-structure invariant holds — in particular `sink_failure_safe` for a sink that fails at its FIRST call (nothing is
-dropped, offset stays 0, the array stays well formed). -/
-theorem no_panic_unpruned_partial (ops : List Op)
-    (hu : ∀ k, k ≤ ops.length → Unpruned (run .none (ops.take k)).1) : MInv (run .none ops).1 :=
-  inv_structure ops .none trivial hu
-
-/-- non-vacuity: a history with blocks, votes, a justified-only update and queries stays unpruned -/
-example : ∀ k, k ≤ 6 → Unpruned (run .none (([
-    .init 4 (rt 1) 0 0 ⟨0, rt 1⟩ ⟨0, rt 1⟩ .recording [32, 32], .block (rt 1) (rt 2) 1 0 0, .block (rt 2) (rt 3) 4 1 0,
-    .att 0 (rt 3) 4, .justify (rt 1) ⟨1, rt 3⟩ ⟨0, rt 1⟩ (some [32, 33]), .head] : List Op).take k)).1 := by
-  decide +kernel
+/-- no operation of ANY history that leaves the finalized checkpoint alone (malformed insertions included) panics,
+blocks or loops, and the structure invariant holds -/
+theorem no_panic_quiet (ops : List Op) (hq : Quiet .none ops) : MInv (run .none ops).1 :=
+  inv_structure_quiet ops .none trivial hq
 
 /-- **Checkpoint updates refine the specification (admissible histories: the finalized checkpoint is never moved).**
 Every `UpdateJustified` answer of the model — accepted, or refused because the checkpoint is older/equal, unknown,
